@@ -2,7 +2,7 @@
 //! on the list-valued types; any panic, or a clone affected by a mutation of its origin, is a witness.
 use stun_rs::attributes::stun::{PasswordAlgorithm, PasswordAlgorithms, UnknownAttributes};
 use stun_rs::attributes::turn::{ChannelNumber, Data, IcmpCode, IcmpType};
-use stun_rs::{Algorithm, AlgorithmId, AttributeType, MessageClass, MessageMethod, MessageType};
+use stun_rs::{Algorithm, AlgorithmId, AttributeType, MessageClass, MessageDecoderBuilder, MessageMethod, MessageType};
 use std::convert::TryFrom;
 
 fn main() {
@@ -55,5 +55,17 @@ fn main() {
     match r { Ok((x, y, z)) if x == [1, 2, 3] && y == [1, 2] && z == [1, 2, 9] => {}, Ok(x) => { first(format!("UnknownAttributes copies not independent: {:?}", x)); bad += 1; }, Err(_) => { first("UnknownAttributes clone / add sequence panicked".into()); bad += 1; } }
     let r = std::panic::catch_unwind(|| { let d = Data::new(vec![1u8, 2, 3]); let e = d.clone(); drop(d); e.as_bytes().len() });
     if r.map(|n| n != 3).unwrap_or(true) { first("Data clone".into()); bad += 1; }
+    // accessors of values that came off the wire: any 32-bit CHANGE-REQUEST word, any reserved bits
+    for word in [0u32, 1, 2, 4, 6, 7, 8, 0x8000_0000, 0xffff_ffff, 0x0000_0100] {
+        let mut m = vec![0x00u8, 0x01, 0x00, 0x08, 0x21, 0x12, 0xA4, 0x42]; m.extend_from_slice(&[5u8; 12]);
+        m.extend_from_slice(&[0x00, 0x03, 0x00, 0x04]); m.extend_from_slice(&word.to_be_bytes());
+        let r = std::panic::catch_unwind(|| {
+            match MessageDecoderBuilder::default().build().decode(&m) {
+                Ok((msg, _)) => { for a in msg.attributes() { if a.is_change_request() { let f = a.expect_change_request().flags(); let _ = f.bits(); let c = a.clone(); let _ = c.expect_change_request().flags(); } } }
+                Err(_) => {}
+            }
+        });
+        if r.is_err() { first(format!("ChangeRequest::flags() panics on the decoded word {:#010x}", word)); bad += 1; break; }
+    }
     if bad == 0 { println!("ok: small-domain conversions and clone sequences"); } else { std::process::exit(1); }
 }
